@@ -150,6 +150,24 @@ theorem gmresC_solve_ok (conj : K → K) (prm : GMRES.Params K) (ip : Vec K → 
   unfold GMRES.solveC GMRES.runC
   cases prologueA prm.nsSearch ip sqrt eps f <;> exact ⟨_, _, _, _, rfl⟩
 
+theorem fgmresC_solve_ok (conj : K → K) (prm : FGMRES.Params K) (ip : Vec K → Vec K → K) (sqrt : K → K) (eps : K) (A : CRS K)
+    (P : Vec K → Vec K) (ws : FGMRES.Work K) (f x0 : Vec K) :
+    ∃ it res x w, FGMRES.solveC conj prm ip sqrt eps A P ws f x0 = .ok (it, res, x, w) := by
+  unfold FGMRES.solveC FGMRES.runC
+  cases prologueA prm.nsSearch ip sqrt eps f <;> exact ⟨_, _, _, _, rfl⟩
+
+theorem lgmresC_solve_ok (conj : K → K) (prm : LGMRES.Params K) (ip : Vec K → Vec K → K) (sqrt : K → K) (eps : K) (A : CRS K)
+    (P : Vec K → Vec K) (ws : LGMRES.Work K) (f x0 : Vec K) :
+    ∃ it res x w, LGMRES.solveC conj prm ip sqrt eps A P ws f x0 = .ok (it, res, x, w) := by
+  unfold LGMRES.solveC LGMRES.runC
+  cases prologueA prm.nsSearch ip sqrt eps f <;> exact ⟨_, _, _, _, rfl⟩
+
+theorem richardson_solve_ok (prm : Richardson.Params K) (ip : Vec K → Vec K → K) (sqrt : K → K) (eps : K) (A : CRS K)
+    (P : Vec K → Vec K) (ws : Richardson.Work K) (f x0 : Vec K) :
+    ∃ it res x w, Richardson.solve prm ip sqrt eps A P ws f x0 = .ok (it, res, x, w) := by
+  unfold Richardson.solve Richardson.run
+  cases prologue prm.nsSearch ip sqrt eps f <;> exact ⟨_, _, _, _, rfl⟩
+
 end truthful
 
 /-! ### non-vacuity at `ℂ` with complex conjugation (order by modulus, as amgcl declares it) -/
@@ -171,6 +189,26 @@ example : ∃ it res x w, GMRES.solveC (starRingEnd ℂ)
     ({ maxiter := 2, tol := 0, abstol := 0, nsSearch := false, M := 2, pside := .right } : GMRES.Params ℂ)
     (ipC (starRingEnd ℂ)) (fun z => z) 0 cA vcopy (GMRES.Work.fresh 2) cf #[0, 0] = .ok (it, res, x, w) :=
   gmresC_solve_ok _ _ _ _ _ _ _ _ _ _
+
+example : ∃ it res x w, FGMRES.solveC (starRingEnd ℂ)
+    ({ maxiter := 2, tol := 0, abstol := 0, nsSearch := false, M := 2 } : FGMRES.Params ℂ)
+    (ipC (starRingEnd ℂ)) (fun z => z) 0 cA vcopy (FGMRES.Work.fresh 2) cf #[0, 0] = .ok (it, res, x, w) :=
+  fgmresC_solve_ok _ _ _ _ _ _ _ _ _ _
+
+example : ∃ it res x w, LGMRES.solveC (starRingEnd ℂ)
+    ({ maxiter := 2, tol := 0, abstol := 0, nsSearch := false, M := 1, K' := 1, alwaysReset := true, pside := .left } : LGMRES.Params ℂ)
+    (ipC (starRingEnd ℂ)) (fun z => z) 0 cA vcopy (LGMRES.Work.fresh 2) cf #[0, 0] = .ok (it, res, x, w) :=
+  lgmresC_solve_ok _ _ _ _ _ _ _ _ _ _
+
+example : ∃ it res x w, Richardson.solve
+    ({ maxiter := 2, tol := 0, abstol := 0, nsSearch := false, damping := 1 } : Richardson.Params ℂ)
+    (ipC (starRingEnd ℂ)) (fun z => z) 0 cA vcopy (Richardson.Work.fresh 2) cf #[0, 0] = .ok (it, res, x, w) :=
+  richardson_solve_ok _ _ _ _ _ _ _ _ _
+
+/-- BiCGStab can throw; its hypothesis `solve … = .ok …` is satisfied e.g. by this rational 2×2 call (`conj = id`) -/
+example : (match BiCGStab.solve ({ maxiter := 2, tol := 0, abstol := 0, nsSearch := false, pside := .right, checkAfter := false } :
+      BiCGStab.Params ℚ) (ipC id) id 0 ⟨2, #[[(0, 2), (1, 1)], [(0, 1), (1, 3)]]⟩ vcopy (BiCGStab.Work.fresh 2) #[1, 2] #[0, 0] with
+    | .ok (it, _, _, _) => decide (it = 2) | .error _ => false) = true := by decide +kernel
 
 end nonvacuous
 
